@@ -47,6 +47,9 @@ type TargetBeh struct {
 	StopReadAfter  int  `json:"stop_read_after,omitempty"` // >0: stops reading after that many messages ...
 	ResumeReadMS   int  `json:"resume_read_ms,omitempty"`  // ... and resumes after this long (0 = never)
 	AckPeriodMS    int  `json:"ack_period_ms,omitempty"`   // default 1000
+	AckPauseFromMS int  `json:"ack_pause_from_ms,omitempty"` // no acks are sent in [from, to) after connect
+	AckPauseToMS   int  `json:"ack_pause_to_ms,omitempty"`
+	AsyncProcess   bool `json:"async_process,omitempty"` // tasks are queued at once and processed in the background (as Temporal's scheduler does)
 }
 
 // Fault: break stream Stream right after its N-th boundary event of kind Kind.
@@ -685,6 +688,9 @@ func (c *cluster) runTargetInc(ctx context.Context, shard int, h adminservice.Ad
 				if beh.NeverAck || time.Since(opened) < time.Duration(beh.AckAfterMS)*time.Millisecond {
 					continue
 				}
+				if el := time.Since(opened).Milliseconds(); beh.AckPauseToMS > 0 && el >= int64(beh.AckPauseFromMS) && el < int64(beh.AckPauseToMS) {
+					continue
+				}
 				mu.Lock()
 				wm := high
 				if len(queue) > 0 {
@@ -704,6 +710,32 @@ func (c *cluster) runTargetInc(ctx context.Context, shard int, h adminservice.Ad
 			}
 		}
 	}()
+	procKick := make(chan int, 100000)
+	if beh.AsyncProcess {
+		go func() { // background processor: one task per PerTaskMS, in order
+			for {
+				select {
+				case n := <-procKick:
+					for i := 0; i < n; i++ {
+						if beh.PerTaskMS > 0 {
+							select {
+							case <-time.After(time.Duration(beh.PerTaskMS) * time.Millisecond):
+							case <-sctx.Done():
+								return
+							}
+						}
+						mu.Lock()
+						if len(queue) > 0 {
+							queue = queue[1:]
+						}
+						mu.Unlock()
+					}
+				case <-sctx.Done():
+					return
+				}
+			}
+		}()
+	}
 	read := 0
 	for {
 		if beh.StopReadAfter > 0 && read == beh.StopReadAfter {
@@ -747,6 +779,13 @@ func (c *cluster) runTargetInc(ctx context.Context, shard int, h adminservice.Ad
 			high = msgs.ExclusiveHighWatermark
 			n := len(msgs.ReplicationTasks)
 			mu.Unlock()
+			if beh.AsyncProcess {
+				select {
+				case procKick <- n:
+				case <-sctx.Done():
+				}
+				continue
+			}
 			for i := 0; i < n; i++ { // tasks complete in order after a scripted delay
 				if beh.PerTaskMS > 0 {
 					select {
